@@ -14,6 +14,8 @@ def one(bid):
         if r.returncode:
             return bid, {"patch": (r.stdout + r.stderr)[-200:]}
         props = [c["property_id"] for c in json.load(open(os.path.join(VERIF, "MANIFEST.json")))["checks"]]
+        if os.environ.get("BENIGN_PROPS"):      # restrict the run to the checks whose code changed
+            props = [p_ for p_ in props if p_ in os.environ["BENIGN_PROPS"].split(",")]
         env = dict(os.environ, SDPVERIF_REPO=dst, SDPVERIF_EVIDENCE_DIR=os.path.join(tmp, "ev"))
         out = {}
         for p in props:
@@ -26,6 +28,6 @@ def one(bid):
         shutil.rmtree(tmp, ignore_errors=True)
 
 ids = sys.argv[1:] or sorted(os.listdir(B), key=lambda x: int(x[1:]))
-with cf.ThreadPoolExecutor(4) as ex:
+with cf.ThreadPoolExecutor(int(os.environ.get('BENIGN_THREADS', '4'))) as ex:
     for bid, out in ex.map(one, ids):
         print(bid, "SILENT" if not out else f"ALARM {out}")
